@@ -470,7 +470,7 @@ fn c33_world(rep: &mut Report, factory: &Factory, kind: &str) {
     let mut files = Vec::new();
     find_files(&bed.cache.join("stored"), "ca3.mft", &mut files);
     if files.len() != 1 { rep.divergence("C33", format!("{kind}: stored point of ca3 not found ({})", files.len())); return }
-    let initial = kind.starts_with("retry");
+    let initial = kind == "retry-in-process";
     if initial { let _ = std::fs::remove_file(&files[0]); }
     else if rrdp {
         use routinator::collector::SnapshotRrdpArchive;
